@@ -35,10 +35,10 @@ def demo_result(repo, demo, race=False):
     os.remove(dst)
     return rc, out
 
-def do_import(pid, n):
-    src = f"/tmp/wt/{pid}/out"
+def do_import(pid, n, sub="out", offset=0):
+    src = f"/tmp/wt/{pid}/{sub}"
     patch, demo, notes = f"{src}/patch{n}.diff", f"{src}/demo{n}_test.go", f"{src}/notes{n}.md"
-    name = f"{pid}-{n}"
+    name = f"{pid}-{n+offset}"
     ran = []
     d, repo = scratch(patch)
     try:
@@ -64,7 +64,7 @@ def do_import(pid, n):
     shutil.copy(patch, os.path.join(dst, "patch.diff"))
     shutil.copy(demo, os.path.join(dst, "demo_test.go.txt"))
     shutil.copy(notes, os.path.join(dst, "notes.md"))
-    meta = {"property": pid, "source": "independent sub-agent given only the property text and a scratch worktree",
+    meta = {"property": pid, "source": "independent sub-agent given only the property text and a scratch worktree" + (" (round 2: told which ideas round 1 had already used)" if offset else ""),
             "needs_to_manifest": first_lines(notes), "verified_here": ran, "race_demo": race, "checks": {}}
     json.dump(meta, open(os.path.join(dst, "meta.json"), "w"), indent=1)
     print(name, "kept")
@@ -117,6 +117,8 @@ def main():
     a = sys.argv[1:]
     if a[0] == "import":
         do_import(a[1], int(a[2])); return
+    if a[0] == "import2":  # round 2: /tmp/wt/<ID>/out2/patchN -> seeded/<ID>-(N+2)
+        do_import(a[1], int(a[2]), "out2", 2); return
     if a[0] == "reverify":
         names = a[1:] or sorted(os.path.basename(p) for p in glob.glob(os.path.join(HERE, "seeded", "C*-*")))
         with cf.ThreadPoolExecutor(6) as ex:
